@@ -2,6 +2,9 @@ CONSTANT MaxLang = 3
 CONSTANT Shapes = {"empty", "short", "edge", "real"}
 CONSTANT RuleShapes = {"empty", "short", "edge", "real"}
 CONSTANT P2Shapes = {"empty", "short", "edge", "real"}
+CONSTANT ShapedL = {{}, {0}, {1}, {0, 1}, {2}, {0, 2}, {1, 2}, {0, 1, 2}, {3}, {0, 3}, {1, 3}, {2, 3}, {0, 1, 3}, {0, 2, 3}, {1, 2, 3}, {0, 1, 2, 3}}
+CONSTANT ShapedShapes = {"short"}
+CONSTANT ShapedP2 = {FALSE, TRUE}
 INIT Init
 NEXT Next
 INVARIANT ViewShape
@@ -9,4 +12,5 @@ INVARIANT Wrapping
 INVARIANT Distinct
 INVARIANT RuleShape
 INVARIANT FlagIrrelevant
+INVARIANT OriginalBytes
 POSTCONDITION AllCasesVisited
